@@ -41,6 +41,11 @@ def run_property(pid, tier):
 
 
 def main():
+    import signal
+    try:
+        signal.signal(signal.SIGPIPE, signal.SIG_DFL)    # `check | head` must not turn into a traceback
+    except (AttributeError, ValueError):
+        pass
     ap = argparse.ArgumentParser()
     ap.add_argument('property')
     ap.add_argument('--tier', default=os.environ.get('VERIF_TIER', 'quick'), choices=['quick', 'thorough'])
